@@ -209,7 +209,14 @@ def _harness1(exe, sub, extra, reqs, timeout, env=None):
         p = subprocess.run([exe, sub] + list(extra), input="\n".join(todo) + "\n",
                            stdout=subprocess.PIPE, stderr=subprocess.PIPE, timeout=timeout,
                            universal_newlines=True, env=env)
-        got = [json.loads(l) for l in p.stdout.split("\n") if l.strip()]
+        got = []
+        for l in p.stdout.split("\n"):
+            l = l.strip()
+            if l.startswith("{") or l.startswith("["):      # (the HTTP module's server prints a banner on the same stream)
+                try:
+                    got.append(json.loads(l))
+                except ValueError:
+                    pass
         if p.returncode == 3 and got and isinstance(got[-1], dict) and "watchdog" in got[-1] and len(got) <= len(todo):
             kind = got[-1]["watchdog"]
             outs += got[:-1] + [{"kind": "fuel", "watchdog": kind, "out": "", "repr": "", "errk": "", "errmsg": ""}]
